@@ -14,6 +14,9 @@ SRC_TEXT = {
     "src/emoji_u1f601.svg": cli.SVG_B,
     "src/emoji_u1f601_200d_1f600.svg": cli.SVG_C,
     # smooth multi-stop gradients with translucency: more colours than a 256-entry palette can hold at full quality
+    # two masters of a variable font (same structure, different numbers)
+    "thin/emoji_u1f600.svg": '<svg xmlns="http://www.w3.org/2000/svg" viewBox="0 0 100 100"><!--vf--><rect x="10" y="10" width="40" height="30" fill="#FF0000"/><path d="M60,60 L90,60 L75,90 Z" fill="#0000FF" opacity="0.5"/></svg>\n',
+    "bold/emoji_u1f600.svg": '<svg xmlns="http://www.w3.org/2000/svg" viewBox="0 0 100 100"><!--vf--><rect x="5" y="5" width="40" height="45" fill="#FF0000"/><path d="M55,55 L95,55 L75,95 Z" fill="#0000FF" opacity="0.5"/></svg>\n',
     "src/emoji_u1f9e0.svg": ('<svg xmlns="http://www.w3.org/2000/svg" viewBox="0 0 100 100"><defs><radialGradient id="a" cx="0.4" cy="0.4" r="0.7">'
                              '<stop offset="0" stop-color="#FFEB3B"/><stop offset="0.4" stop-color="#E53935"/><stop offset="0.7" stop-color="#3949AB" stop-opacity="0.6"/>'
                              '<stop offset="1" stop-color="#00897B"/></radialGradient><linearGradient id="b" x1="0" y1="0" x2="1" y2="1"><stop offset="0" stop-color="#8E24AA"/>'
@@ -67,20 +70,27 @@ class Interner:
 class Family:
     """A family of worlds: subsets of `sources` x option values; each option value is a list of CLI flags."""
 
-    def __init__(self, name, sources, opts, base_flags):
+    def __init__(self, name, sources, opts, base_flags, configs=None, full_only=False, positional=None):
         self.name = name
         self.sources = list(sources)  # relative paths under the sandbox root, e.g. src/x.svg
         self.opts = dict(opts)  # opt name -> flags
         self.base_flags = list(base_flags)
+        self.configs = dict(configs or {})   # extra files (a config TOML) written next to the sources
+        self.full_only = full_only           # only the world with every source (masters must agree on their sources)
+        self.positional = positional         # positional arguments instead of the source list (the config file)
 
     def worlds(self):
+        if self.full_only:
+            for o in self.opts:
+                yield (frozenset(self.sources), o)
+            return
         for k in range(1, len(self.sources) + 1):
             for subset in itertools.combinations(self.sources, k):
                 for o in self.opts:
                     yield (frozenset(subset), o)
 
     def args(self, present, opt):
-        return self.base_flags + self.opts[opt] + sorted(present)
+        return self.base_flags + self.opts[opt] + (list(self.positional) if self.positional is not None else sorted(present))
 
 
 def bpath(src_rel):
@@ -98,7 +108,7 @@ def extract_family(fam: Family, workdir: Path):
         i, (present, opt) = i_w
         root = workdir / f"w{i}"
         measure = len(present) == len(fam.sources)
-        g = ninja_graph.extract(root, {s: SRC_TEXT[s] for s in present}, fam.args(present, opt), measure=measure)
+        g = ninja_graph.extract(root, {s: SRC_TEXT[s] for s in present}, fam.args(present, opt), configs=fam.configs, measure=measure)
         shutil.rmtree(root, ignore_errors=True)
         if g["rc"] != 0:
             raise MachineryError(f"driver failed for world {sorted(present)} {opt}: {g['log'][-600:]}")
@@ -121,7 +131,7 @@ def extract_family(fam: Family, workdir: Path):
                 raise MachineryError(f"edge {e['out']} of a sub-world has no counterpart in the maximal world")
             reads = [r for r in fr if r in files]
             h = intern_h(e["cmd"] + "\n" + " ".join(e["ins"]))
-            edges.append({"out": e["out"], "ins": declared, "reads": reads, "h": h, "sem": h, "rule": e["rule"]})
+            edges.append({"out": e["out"], "ins": declared, "trig": e["ins"] + e["implicit"], "reads": reads, "h": h, "sem": h, "rule": e["rule"]})
         toml = [{"path": p, "id": intern_t(t)} for p, t in sorted(g["driver_files"].items())]
         fonts = sorted(e["out"] for e in g["edges"] if e["rule"] in ("write_font", "write_variable_font")
                        and not e["out"].endswith(".ufo"))
@@ -142,8 +152,9 @@ def write_mc(data, spec_dir: Path, name, consts, invariants, properties=(), cons
     world_of = tla_fun([((frozenset(w["present"]), w["opt"]), w["id"]) for w in W])
 
     def edge(e, outs):
-        return {"ins": e["ins"], "reads": e["reads"], "h": e["h"], "sem": e["sem"],
-                "deps": frozenset(i for i in e["ins"] if i in outs)}
+        trig = e.get("trig", e["ins"])
+        return {"ins": e["ins"], "trig": trig, "reads": e["reads"], "h": e["h"], "sem": e["sem"],
+                "deps": frozenset(i for i in e["ins"] if i in outs), "tdeps": frozenset(i for i in trig if i in outs)}
 
     def edges_of(w):
         outs = {e["out"] for e in w["edges"]}
